@@ -28,18 +28,29 @@
 EXTENDS FlatBody
 
 CONSTANTS MaxLen, MaxDepth,
+          MinFns, MaxFns,   \* number of function bodies of a module (items "F", see FlatBody.tla)
+          NeedResult,    \* TRUE: only modules in which some function ends with `return:` and a result are finished
+          Phased,        \* TRUE: only bodies of the form gotos* declarations* (labels | uses)* (longer bodies, fewer)
           VNames,        \* names of variables in bodies
           LNames,        \* label names
           BodyKinds,     \* item kinds the generator may use
           Configs        \* set of [consts |-> seq of names, params |-> seq of names]
 
 Item(k, n) == [k |-> k, n |-> n]
+\* Dimension audit: further use contexts
+\*   W n   n = x;             the variable as assignment target
+\*   VR n  var n: i32 = n;    a use inside its own declaration (the initialiser is analysed first)
+\*   RV n  n                  the result expression after `return:` (last statement of a function body)
+\*   F     a new function starts (its `var x` is declaration f = the position of the item)
+DeclKinds == {"V", "VR"}
+UseKinds == {"U", "W", "VR", "RV"}
 Items == {Item(k, "") : k \in (Openers \cup {"C", "LP", "S"}) \cap BodyKinds}
-           \cup {Item(k, n) : k \in {"V", "U"} \cap BodyKinds, n \in VNames}
+           \cup {Item(k, n) : k \in (DeclKinds \cup UseKinds) \cap BodyKinds, n \in VNames}
            \cup {Item(k, n) : k \in (GotoKinds \cup {"L"}) \cap BodyKinds, n \in LNames}
+           \cup {Item("F", "x")}
 
-IsV(b, i) == b[i].k = "V"
-IsU(b, i) == b[i].k = "U"
+IsV(b, i) == b[i].k \in DeclKinds
+IsU(b, i) == b[i].k \in UseKinds
 ParamId(i) == 0 - i
 ConstId(i) == 0 - (10 + i)
 ParamIds(c) == { ParamId(i) : i \in 1..Len(c.params) }
@@ -91,6 +102,28 @@ R482first(b, c) == { FirstBadUse(b, c, d) : d \in R482decl(b, c) }
 RuleAcceptsVars(b, c) == LabelOK(b) /\ R402(b, c) = {} /\ NoDup(b, c) /\ R482decl(b, c) = {}
 
 (***************************************************************************)
+(* Modules with several functions: the rule above is applied to every      *)
+(* function body on its own (FlatBody.tla, Seg) -- variables, parameters   *)
+(* and labels of one function mean nothing in another, constants are       *)
+(* visible in all of them.  The parameters of the configuration belong to  *)
+(* the FIRST function; the others have none.  Declaration ids are lifted:  *)
+(* local position q >= 1 is f + q, the `var x` of the function (local 0)   *)
+(* is f, parameters and constants keep their (negative) ids.               *)
+(***************************************************************************)
+CfgOf(c, f) == IF f = 0 THEN c ELSE [c EXCEPT !.params = <<>>]
+LiftIds(f, S) == { IF d >= 0 THEN f + d ELSE d : d \in S }
+MLabelOK(b) == MRuleAccepts(b)
+MR402(b, c) == UNION { Lift(f, R402(Seg(b, f), CfgOf(c, f))) : f \in FStarts(b) }
+MR422(b, c) == UNION { Lift(f, R422(Seg(b, f), CfgOf(c, f))) : f \in FStarts(b) }
+MNoDup(b, c) == MR422(b, c) = {} /\ R424(c) = {} /\ R423(c) = {}
+MBadUses(b, c) == UNION { Lift(f, BadUses(Seg(b, f), CfgOf(c, f))) : f \in FStarts(b) }
+MR482decl(b, c) == UNION { Lift(f, R482decl(Seg(b, f), CfgOf(c, f))) : f \in FStarts(b) }
+MR482first(b, c) == UNION { Lift(f, R482first(Seg(b, f), CfgOf(c, f))) : f \in FStarts(b) }
+MDeclsFor(b, c, i) == LET f == FOf(b, i) IN LiftIds(f, DeclsFor(Seg(b, f), CfgOf(c, f), i - f))
+MRuleAcceptsVars(b, c) == \A f \in FStarts(b) : RuleAcceptsVars(Seg(b, f), CfgOf(c, f))
+MTarget(b, g) == LET f == FOf(b, g) IN f + Target(Seg(b, f), g - f)
+
+(***************************************************************************)
 (* A -- variable_references.rs.                                            *)
 (*   st        variable_stack: sequence of layers (layer 1 = constants,    *)
 (*             2 = parameters, 3 = function body, ...), each a sequence of *)
@@ -116,7 +149,10 @@ SchedItems(b, i) ==
     ELSE (CASE b[i].k \in Openers -> <<<<"push", i>>>>
             [] b[i].k = "C" -> <<<<"pop", i>>>>
             [] b[i].k = "V" -> <<<<"decl", i>>>>
-            [] b[i].k = "U" -> <<<<"use", i>>>>
+            [] b[i].k = "VR" -> <<<<"use", i>>, <<"decl", i>>>>
+            [] b[i].k \in {"U", "W", "RV"} -> <<<<"use", i>>>>
+            \* the next function: both scopes of the previous one are popped, the analyzer lives on
+            [] b[i].k = "F" -> <<<<"pop", i>>, <<"pop", i>>, <<"push", 0 - 1>>, <<"push", i>>, <<"decl", i>>>>
             [] b[i].k \in GotoKinds -> <<<<"goto", i>>>>
             [] b[i].k = "L" -> <<<<"label", i>>>>
             [] OTHER -> <<>>) \o SchedItems(b, i + 1)
@@ -162,13 +198,13 @@ AStep(b, c, a, step) ==
                       ELSE a
          [] op = "goto" ->
               \* gotos whose label did not resolve were poisoned by the label scoper and are not seen
-              IF BadGoto(b, p) THEN a
-              ELSE LET t == Target(b, p)
+              IF MBadGoto(b, p) THEN a
+              ELSE LET t == MTarget(b, p)
                        cur == InScope(a.st)
                    IN [a EXCEPT !.unres[t] = IF @ = None THEN cur ELSE @ \cap cur]
          [] op = "label" ->
               \* a clashing (earlier) label was poisoned by the label scoper and is not seen
-              IF \E q \in 1..Len(b) : ClashPair(b, p, q) THEN a
+              IF \E q \in 1..Len(b) : MClashPair(b, p, q) THEN a
               ELSE LET u == a.unres[p]
                        layer == a.st[Top(a.st)]
                        pr == IF u = None THEN {} ELSE { layer[x] : x \in 1..Len(layer) } \ u
@@ -184,7 +220,7 @@ Succ(b, pc, live) ==
     LET it == b[pc]
         fall == <<pc + 1, StillLive(b, live, pc + 1)>>
         jump(t) == <<t, StillLive(b, live, t)>>
-    IN CASE it.k = "V" -> {<<pc + 1, live \cup {pc}>>}
+    IN CASE it.k \in DeclKinds -> {<<pc + 1, live \cup {pc}>>}
          [] it.k \in {"G", "EG"} -> {jump(Target(b, pc))}
          [] it.k \in {"IG", "EIG"} -> {fall, jump(Target(b, pc))}
          [] it.k = "LP" -> LET o == BlockOf(b, pc) IN {<<o + 1, StillLive(b, { d \in live : d < o }, o + 1)>>}
@@ -194,43 +230,62 @@ Succ(b, pc, live) ==
 (***************************************************************************)
 (* The state machine TLC explores.                                         *)
 (***************************************************************************)
-VARIABLES body, depth, cfg, phase, sched, k, alg, pc, live
-vars == <<body, depth, cfg, phase, sched, k, alg, pc, live>>
+VARIABLES body, depth, cfg, phase, sched, k, alg, pc, live,
+          opens,     \* kinds of the blocks currently open (else-parts only follow if-parts)
+          last       \* "if" when an else-part may follow the previous item
+vars == <<body, depth, cfg, phase, sched, k, alg, pc, live, opens, last>>
 
-Init == /\ body = <<>> /\ depth = 0 /\ cfg \in Configs /\ phase = "gen"
+\* Phased bodies: the kinds come in the order gotos, declarations, labels and uses
+PhaseOf(kd) == IF kd \in GotoKinds THEN 1 ELSE IF kd \in DeclKinds THEN 2 ELSE 3
+
+Init == /\ body = <<>> /\ depth = 0 /\ cfg \in Configs /\ phase = "gen" /\ opens = <<>> /\ last = "none"
         /\ sched = <<>> /\ k = 0 /\ alg = AInit /\ pc = 0 /\ live = {}
 
 Add(it) ==
     /\ phase = "gen" /\ Len(body) < MaxLen
-    /\ CASE it.k \in Openers -> depth < MaxDepth /\ depth' = depth + 1
-         [] it.k = "C" -> depth > 0 /\ depth' = depth - 1
-         [] OTHER -> depth' = depth
+    /\ (it.k \in ElseKinds) => last = "if"
+    /\ CASE it.k \in Openers -> /\ depth < MaxDepth /\ depth' = depth + 1
+                                /\ opens' = Append(opens, it.k) /\ last' = "none"
+         [] it.k = "C" -> /\ depth > 0 /\ depth' = depth - 1
+                          /\ opens' = SubSeq(opens, 1, Len(opens) - 1)
+                          /\ last' = IF opens[Len(opens)] \in IfKinds THEN "if" ELSE "none"
+         [] OTHER -> /\ depth' = depth /\ opens' = opens
+                     /\ last' = IF it.k \in IfKinds THEN "if" ELSE "none"
+    /\ (it.k = "F") => (depth = 0 /\ Cardinality(FStarts(body)) < MaxFns)
+    \* `return:` only as the last statement of a function body, followed by the result expression
+    /\ (it.k = "L" /\ it.n = "return") => depth = 0
+    /\ (it.k = "RV") = (Len(body) > 0 /\ body[Len(body)] = Item("L", "return"))
+    /\ (Len(body) > 0 /\ body[Len(body)].k = "RV") => it.k = "F"
+    /\ (Phased /\ Len(body) > 0) => PhaseOf(body[Len(body)].k) <= PhaseOf(it.k)
     \* `loop` is only generated in its legal place (C06 covers the others): the next item closes the block
     /\ (Len(body) > 0 /\ body[Len(body)].k = "LP") => it.k = "C"
     /\ it.k = "LP" => depth > 0
     /\ body' = Append(body, it)
     /\ UNCHANGED <<cfg, phase, sched, k, alg, pc, live>>
 
-Finish == /\ phase = "gen" /\ depth = 0
-          /\ (Len(body) > 0 => body[Len(body)].k # "LP")
+Finish == /\ phase = "gen" /\ depth = 0 /\ Cardinality(FStarts(body)) >= MinFns
+          /\ (Len(body) > 0 => body[Len(body)].k # "LP" /\ body[Len(body)] # Item("L", "return"))
+          /\ NeedResult => \E i \in 1..Len(body) : body[i].k = "RV"
           /\ phase' = "scan" /\ sched' = Sched(body, cfg) /\ k' = 1 /\ alg' = AStart(body)
-          /\ UNCHANGED <<body, depth, cfg, pc, live>>
+          /\ UNCHANGED <<body, depth, cfg, pc, live, opens, last>>
 
 Scan == /\ phase = "scan" /\ k <= Len(sched)
         /\ alg' = AStep(body, cfg, alg, sched[k]) /\ k' = k + 1
-        /\ UNCHANGED <<body, depth, cfg, phase, sched, pc, live>>
+        /\ UNCHANGED <<body, depth, cfg, phase, sched, pc, live, opens, last>>
 
 Done == /\ phase = "scan" /\ k > Len(sched)
         /\ phase' = "end"
-        /\ UNCHANGED <<body, depth, cfg, sched, k, alg, pc, live>>
+        /\ UNCHANGED <<body, depth, cfg, sched, k, alg, pc, live, opens, last>>
 
-\* path exploration of accepted bodies
+\* path exploration of accepted bodies (single function bodies without else-parts: the rule for a module is the
+\* rule for each of its bodies, and Succ does not know else-chains)
 Start == /\ phase = "end" /\ Len(body) > 0 /\ RuleAcceptsVars(body, cfg)
+         /\ FStarts(body) = {0} /\ \A i \in 1..Len(body) : body[i].k \notin ElseKinds
          /\ phase' = "run" /\ pc' = 1 /\ live' = {0} \cup ParamIds(cfg) \cup ConstIds(cfg)
-         /\ UNCHANGED <<body, depth, cfg, sched, k, alg>>
+         /\ UNCHANGED <<body, depth, cfg, sched, k, alg, opens, last>>
 Step == /\ phase = "run" /\ pc >= 1 /\ pc <= Len(body)
         /\ \E s \in Succ(body, pc, live) : pc' = s[1] /\ live' = s[2]
-        /\ UNCHANGED <<body, depth, cfg, phase, sched, k, alg>>
+        /\ UNCHANGED <<body, depth, cfg, phase, sched, k, alg, opens, last>>
 
 Next == (\E it \in Items : Add(it)) \/ Finish \/ Scan \/ Done \/ Start \/ Step
 Spec == Init /\ [][Next]_vars
@@ -240,15 +295,15 @@ Spec == Init /\ [][Next]_vars
 (***************************************************************************)
 \* A |= R
 AgreeScoper == phase = "end" =>
-    /\ alg.e402 = R402(body, cfg)
-    /\ alg.e422 = R422(body, cfg)
+    /\ alg.e402 = MR402(body, cfg)
+    /\ alg.e422 = MR422(body, cfg)
     /\ alg.e424 = { ParamId(i) : i \in R424(cfg) }
     /\ alg.e423 = { ConstId(i) : i \in R423(cfg) }
-    /\ (LabelOK(body) /\ NoDup(body, cfg)) =>
-           /\ alg.e482d = R482decl(body, cfg)
+    /\ (MLabelOK(body) /\ MNoDup(body, cfg)) =>
+           /\ alg.e482d = MR482decl(body, cfg)
            \* one E482 per skipped variable is demanded (at its first bad use), more are permitted
-           /\ R482first(body, cfg) \subseteq alg.e482
-           /\ alg.e482 \subseteq BadUses(body, cfg)
+           /\ MR482first(body, cfg) \subseteq alg.e482
+           /\ alg.e482 \subseteq MBadUses(body, cfg)
     /\ Len(alg.st) = 1
 \* the rule is sound with respect to real control flow
 Sound == (phase = "run" /\ pc >= 1 /\ pc <= Len(body) /\ IsU(body, pc)) =>
